@@ -497,7 +497,7 @@ fn gen_c12(rng: &mut Prng, seed: u64, thorough: bool) -> Trace {
             }
             4 => index = *rng.pick(&[CAP as u64, CAP as u64 + 1, 1 << 32, u64::MAX]), // outside the tree
             5 => {
-                if entry == 0 { path_len = -1; } else { path_len = *rng.pick(&[0i64, 1, 19, 21, 32]); }
+                if entry == 0 { path_len = -1; } else { path_len = *rng.pick(&[0i64, 1, 19, 21, 32, 119, 121, 100, 101, 219, 221, 200, 201]); }
             }
             6 => {
                 if entry != 0 {
